@@ -37,14 +37,15 @@ written by helper agents from my specs: alias lemma + OutputFix, small passes + 
            excluded by NoBNTraining = the known finding, C05_dce_batchnorm_refuted), C05_lift_constants_preserves,
            C05_output_fix_preserves, C05_lift_subgraph_inits_preserves, C05_add_inits_to_inputs_preserves and
            C05_remove_inits_from_inputs_preserves (main graph; `computes` does not depend on the main inputs: iff),
+           C05_add_default_attributes_preserves (schema defaults table as a parameter, operator hypothesis interp_defaults),
            C05_reorder_preserves (TopologicalSort as the relation reorder_modelb checked on the implementation's result),
            C05_passes_signature (non-initializer inputs kept by each of them).
-  composition: C05_sequence — any sequence of these ten passes: Refines (computes preserved for every environment over the
+  composition: C05_sequence — any sequence of these eleven passes: Refines (computes preserved for every environment over the
            non-initializer inputs; those inputs and the number of outputs kept) and Inv = WF and NoOpFunc kept; every pass's
            own side condition (fresh counter above all identities, locality of outputs, ...) is required where it runs.
   witnesses: C05_dce_batchnorm_refuted (known finding), C05_identity_elim_outer_scope_witness and
            C05_cse_key_distinguishes_attribute_type (fixed defects stay fixed).
-  not proved in Coq (correspondence + oracle only): InlinePass, AddDefaultAttributesPass, RemoveUnusedFunctionsPass;
+  not proved in Coq: InlinePass (execution oracle only), RemoveUnusedFunctionsPass (modelled, structural correspondence + oracle);
            NameFix/ClearMetadata/ShapeInference/RemoveUnusedOpsets touch only what is outside the term language (frame check).
   Noted by the DCE proof: trim_outputs drops trailing outputs that are in `unnamed` (name empty) even if they are used —
            hypothesis UnnamedDead; deserialized models never have used unnamed values.
@@ -95,7 +96,13 @@ Mutants of /repo tried (scratch worktree, VERIF_REPO), all reported as VIOLATION
   M9 dedup key on NUL-padded strings (revert of 9b1ce3f)   -> oracle replay (string bytes differ)
   M10 identity-elimination rule 3 forgets initializers      -> correspondence:ident (semantics unchanged, no failing input)
   M11 DCE removes nodes whose outputs are still used         -> oracle replay (pass raises)
-Wall time: quick ~60-90 s (46 specs x (22 single passes + 5 sequences) + corpus), thorough ~9-12 min (400 specs).
+After the fixes af1d2e4/6ee70d8/d64e021/0f568df/d768234 (second sweep, all VIOLATION unless noted): M1 M2 M3 M4 M6 M7 (now with an
+  oracle replay); M8 is an EQUIVALENT mutant now (float keys are hex strings, INT 1 != "0x1.0p+0" even without the type);
+  M12 CSE float key by value again -> oracle via corpus/fixed-cse-float-scalar-signed-zero; M13 outer-scope Identity rule
+  off -> oracle (checker rejects); M14 AddDefaultAttributes overwrites present attributes -> oracle (outputs differ);
+  M15 OutputFix aliases the wrong value -> oracle (outputs differ).  Coordinator's seeded changes: m1 (CSE ignores None
+  inputs in the key), m2 (Cloner returns the resolved attribute object), m3 (defaults cache without opset) all detected with input.
+Wall time: quick ~60-110 s under load (40 specs x (22 single passes + 5 sequences) + corpus), thorough ~9-12 min (400 specs).
 """
 
 from __future__ import annotations
@@ -1187,14 +1194,15 @@ def run(ck) -> None:
                        "Identity is the identity; trailing omitted optional inputs are ignored",
                        "ONNX attributes form a named set (converter sorts by name)"]
     ck.coverage["rule"] = "a pass actually rewrote the model (term before != term after) and the oracle executed both"
-    # honest level: the statement quantifies over EVERY built-in pass; proved for identity-elimination, both dedups,
-    # constant lifting, reordering and their sequences, partially for DCE and one CSE step — not for all passes
+    # honest level: the statement quantifies over EVERY built-in pass; eleven passes and their sequences are proved,
+    # InlinePass and RemoveUnusedFunctionsPass are not
     ck.level = "translation_validation"
-    ck.notes.append("level_note: Coq theorems (all closed) for IdentityElimination, DeduplicateInitializers (both), "
-                    "LiftConstantsToInitializers, TopologicalSort-as-reordering, sequences; partial for RemoveUnusedNodes "
-                    "(no schema-driven output trimming) and one CSE merge step; the remaining passes are tied by the "
-                    "structural correspondence (model pass = implementation on generated models, inside Coq) and the "
-                    "execution oracle only. Three refutation theorems record defects of the code (see known findings).")
+    ck.notes.append("level_note: Coq theorems (all closed) for IdentityElimination, CSE (whole pass), DeduplicateInitializers (both), "
+                    "RemoveUnusedNodes (incl. schema-driven output trimming; BatchNormalization training_mode excluded = known finding), "
+                    "LiftConstantsToInitializers, OutputFix, LiftSubgraphInitializers, Add/RemoveInitializersFromInputs, "
+                    "AddDefaultAttributes, TopologicalSort-as-reordering, and any sequence of them (C05_sequence). Not proved: "
+                    "InlinePass (execution oracle only) and RemoveUnusedFunctions (modelled + oracle); NameFix/ClearMetadata/"
+                    "ShapeInference/RemoveUnusedOpsets are outside the term language (frame check).")
     generate(ck)
     ck.prove()
     reported: set = set()
@@ -1203,7 +1211,7 @@ def run(ck) -> None:
     ccases = [(c["spec"], c["passes"], c.get("input_seed", 0)) for c in corpus]
     failures, mism = check_cases(ck, ccases, "corpus")
     # generated cases
-    n_specs, n_seq = (46, 5) if not ck.thorough else (400, 8)
+    n_specs, n_seq = (40, 5) if not ck.thorough else (400, 8)
     cases = gen_cases(ck.rng, n_specs, n_seq)
     f2, m2 = check_cases(ck, cases, "gen")
     failures += f2
